@@ -224,6 +224,9 @@ class Gen:
         self.loop_sigs = {}
         self.locals = {}
         self.renamed_fns = []
+        self.dropped_items = []
+        self.hint_dropped_fns = []
+        self.fuzzy_fns = []
 
 
 def load_unit(unit):
@@ -350,6 +353,9 @@ def build(unit, model, repo=None, mutate_false=None, tag="", drop_hints=()):
         for (fk, sigs) in seg.get("loop_sigs", []):
             g.loop_sigs[fk] = sigs
         g.renamed_fns += seg.get("renamed_fns", [])
+        g.dropped_items += seg.get("dropped_items", [])
+        g.hint_dropped_fns += seg.get("hint_dropped_fns", [])
+        g.fuzzy_fns += seg.get("fuzzy_fns", [])
         # function ranges in generated coordinates
         for fn in seg["fns"]:
             gs = ge = None
